@@ -39,6 +39,12 @@ def base_scenarios(rng, real=False):
     out.append({'min_part': 8, 'config': dict(cfg), 'client': {'checksum': 'when_required', 'scheme': 'http'},
                 'transfers': [{'kind': 'upload', 'src': 'path', 'size': 20}]})
     out.append({'config': dict(cfg), 'transfers': [{'kind': 'download', 'dst': 'path', 'size': 20, 'subs': [{'provide_size': 20}]}]})
+    # everything inline in the submitting thread (NonThreadedExecutor); duck-typed subscribers offering only some callbacks
+    for t in ({'kind': 'upload', 'src': 'nonseekable', 'size': 20}, {'kind': 'download', 'dst': 'nonseekable', 'size': 20},
+              {'kind': 'download', 'dst': 'path', 'size': 20, 'preexisting': True}, {'kind': 'copy', 'size': 20}):
+        out.append({'min_part': 8, 'config': dict(cfg), 'executor': 'nonthreaded', 'transfers': [t]})
+    out.append({'min_part': 8, 'config': dict(cfg), 'transfers': [{'kind': 'upload', 'src': 'path', 'size': 20, 'subs': [{'only': ['on_progress']}]}]})
+    out.append({'config': dict(cfg), 'transfers': [{'kind': 'download', 'dst': 'seekable', 'size': 20, 'subs': [{'only': ['on_progress', 'on_done']}]}]})
     return out
 
 
